@@ -588,7 +588,7 @@ func (x *Exec) evalBinary(st *State, e *ast.BinaryExpr) *Term {
 			return Ge(a, b)
 		case token.AND, token.OR, token.XOR, token.AND_NOT:
 			op := map[token.Token]string{token.AND: "go.and", token.OR: "go.or", token.XOR: "go.xor", token.AND_NOT: "go.andnot"}[e.Op]
-			if e.Op != token.AND_NOT && a.String() > b.String() {
+			if e.Op != token.AND_NOT && a.id > b.id {
 				a, b = b, a
 			}
 			r := x.app(op, SInt, a, b)
@@ -603,7 +603,7 @@ func (x *Exec) evalBinary(st *State, e *ast.BinaryExpr) *Term {
 }
 
 func (x *Exec) fpComm(op string, a, b *Term) *Term {
-	if a.String() > b.String() {
+	if a.id > b.id {
 		a, b = b, a
 	}
 	return mk(op, SFloat, Sym("RNE", "RoundingMode"), a, b)
